@@ -34,17 +34,18 @@ def main():
     patch = os.path.join(ROOT, seed, "patch.diff") if not os.path.isabs(seed) else os.path.join(seed, "patch.diff")
     head = sh(["git", "-C", "/repo", "rev-parse", "HEAD"]).stdout.strip()
     if os.path.exists(ALT):
-        sh(["git", "-C", ALT, "checkout", "-q", "--", "."])
+        sh(["git", "-C", ALT, "reset", "-q", "--hard"])
         sh(["git", "-C", ALT, "clean", "-fdq", "-e", "target"])
         sh(["git", "-C", ALT, "checkout", "-q", "--detach", head])
+        sh(["git", "-C", ALT, "reset", "-q", "--hard", head])
     else:
         r = sh(["git", "-C", "/repo", "worktree", "add", "--detach", ALT, head])
         if r.returncode:
             print(r.stdout)
             return 2
-    r = sh(["git", "-C", ALT, "apply", "--3way", patch])
+    r = sh(["git", "-C", ALT, "apply", patch])
     if r.returncode:
-        r = sh(["git", "-C", ALT, "apply", patch])
+        r = sh(["git", "-C", ALT, "apply", "--3way", patch])
     if r.returncode:
         print("patch does not apply:\n" + r.stdout)
         return 2
